@@ -23,6 +23,7 @@ package main
 // or `err <stage>` when the library reports an error.
 
 import (
+	"fmt"
 	"math"
 	"strconv"
 	"strings"
@@ -315,6 +316,43 @@ func init() {
 	// c18re <model> <params0> <params> <s> <t>: the model value and a Pij are first used with params0, the model is then
 	// initialised again with params and the SAME Pij object answers; everything reported is about params
 	register("c18re", func(a []string) string { return opC18(a[0], floats(a[1]), floats(a[2]), atof(a[3]), atof(a[4])) })
+	// c18seq <model> <params> <t1,t2,...>: ONE Pij object is set to the lengths in turn; after every SetLength its matrix
+	// must be the matrix of a fresh Pij at that length (the fresh matrix is what the c18 cases judge against exp(tQ)):
+	// "same" | "differs step=<k> t=<t> maxabs=<d>"
+	register("c18seq", func(a []string) string {
+		m, _, _, stage := mkModel(a[0], floats(a[1]))
+		if stage != "" {
+			return "err " + stage
+		}
+		ts := floats(a[2])
+		if len(ts) == 0 {
+			return "err no-lengths"
+		}
+		live, err := models.NewPij(m, ts[0])
+		if err != nil {
+			return "err pij0"
+		}
+		for k, t := range ts {
+			got, err := pmatrixLive(live, m.NState(), t)
+			if err != nil {
+				return "err setlength"
+			}
+			want, err := pmatrix(m, t)
+			if err != nil {
+				return "err fresh"
+			}
+			d := 0.0
+			for i := range got {
+				if x := math.Abs(got[i] - want[i]); x > d || x != x {
+					d = x
+				}
+			}
+			if !(d <= 1e-12) {
+				return fmt.Sprintf("differs step=%d t=%v maxabs=%g", k, t, d)
+			}
+		}
+		return "same"
+	})
 }
 
 func opC18(name string, p0, p []float64, s, t float64) string {
